@@ -9,7 +9,7 @@ CONSTANTS
   Faults = {"flip", "fliplen", "drop", "dup", "swap", "cut", "cuteof", "trunc"}
   MaxFaults = 1
   Others = {"rev", "peer"}
-  Glitches = {"dataerr", "temperr", "shortwrite"}
+  Glitches = {"dataerr", "temperr", "shortwrite", "refusewrite"}
 INIT Init
 NEXT Next
 VIEW View
